@@ -48,7 +48,9 @@ pub enum AlphaSize {
 
 /// groups of filters that differ in meaning but are easily confused by a lossy rendering or a structural shortcut
 /// (name chains vs joined names, grouping, omitted vs zero slice bounds, index chains vs unions vs longer indices)
-pub const CONFUSABLE: [&[&str]; 7] = [
+pub const CONFUSABLE: [&[&str]; 8] = [
+    // strings are ordered by Unicode scalar value: U+FFFD < U+10000 although its UTF-16 form sorts the other way
+    &["@<'\u{10000}'", "@>='\u{fffd}'", "@<=@"],
     &["@==1e19", "@>1e19", "@<2e19", "@>=9223372036854775808.0"],
     &["@.a.b", "@.ab"],
     &["@.a.b==1", "@.ab==1"],
